@@ -5,7 +5,9 @@ CFG = dict(
           "branch of headersFromContext and the header scan of contextFromHeaders; C08_sys_deadline, C08_sys_none, C08_sys_foreign: the "
           "composition caller context -> header -> handler context, for unary and streaming calls alike, for every caller deadline, "
           "server clock and caller metadata; model and code are run on the same inputs on every run, the composition against whole RPCs "
-          "(real client, link, real server) on the virtual clock of synctest bubbles.",
+          "(real client, link, real server) on the virtual clock of synctest bubbles; parseGrpcTimeout and the deadline branch of "
+          "headersFromContext are moreover translated from /repo's source on every run (tools/go2coq) and the generated definitions proved "
+          "equal to the models for all inputs (coq/Gen/*Equiv.v, re-checked by coqc against the fresh text).",
     props="Props/C08.v",
     theorems=["C08_grammar", "C08_no_misread", "C08_transfer", "C08_deadline", "C08_none",
               "C08_key_case_insensitive", "C08_pick_sound", "C08_sys_deadline", "C08_sys_none", "C08_sys_foreign"],
@@ -14,8 +16,13 @@ CFG = dict(
     case_type="c08case",
     find_bad_from="find_bad_from",
     rigs=[dict(test="TestC08", timeout_quick=300, timeout_thorough=900),
-          dict(test="TestC08Sys", timeout_quick=300, timeout_thorough=900)],
-    reason_text={"1": "implementation output differs from the Gallina model (Model/Timeout.v)",
+          dict(test="TestC08Sys", timeout_quick=300, timeout_thorough=900),
+          dict(test="TestGenEquivC08", timeout_quick=300, timeout_thorough=300)],
+    technique="machine-checked proof (Rocq/Coq 8.16.1) of theorems about a hand-written Gallina model + correspondence check on every run; "
+              "for parseGrpcTimeout and the deadline branch of headersFromContext additionally: model regenerated from source by "
+              "tools/go2coq + equivalence proof (coq/Gen/ParseGrpcTimeoutEquiv.v, DeadlineHeaderEquiv.v) re-checked on every run",
+    reason_text={"1": "implementation output differs from the Gallina model (Model/Timeout.v), or the definition regenerated from the source "
+                      "is no longer proved equal to the model / the source left the translator's subset (gen-equiv cases)",
                  "2": "implementation output violates the property predicate (Check/C08c.v: spec_*_ok)"},
     rule="cases = inputs to parseGrpcTimeout (grammar grid 6 units x 1..20 digits x {zero,one,nines,random,"
          "saturation boundary +-2}, int64 boundary, malformed and mutated strings), remaining times for the client "
